@@ -221,6 +221,40 @@ def oracle(seed, tier):
                     break
         if len(samples) < 2:
             samples.append({"world": w})
+    # ---- three corners of the slab models found by the proof attempt of their envelope (worker MQ: hypotheses the proofs forced), replayed on the library; recorded known findings
+    c45 = math.cos(math.radians(45))
+    def at(along, dist):
+        return ([along * c45 - dist * c45, 0.0], along * c45 + dist * c45)
+    def slab_world(seg, m):
+        return {"version": "1.1", "potential mantle temperature": 1600, "thermal expansion coefficient": 0,
+                "features": [{"model": "subducting plate", "name": "s", "coordinates": [[0, -500e3], [0, 500e3]], "dip point": [1e7, 0], "min depth": 0, "max depth": 1500e3, "segments": [seg], "temperature models": [m]}]}
+    def mcm(ref, ridge_x, coupling):
+        return {"model": "mass conserving", "min distance slab top": -100e3, "max distance slab top": 200e3, "spreading velocity": 0.05, "subducting velocity": 0.05, "density": 3300, "thermal conductivity": 3.3,
+                "thermal diffusivity": 1e-6, "specific heat": 1250, "potential mantle temperature": 1600, "adiabatic heating": False, "coupling depth": coupling, "taper distance": 100e3, "forearc cooling factor": 1,
+                "ridge coordinates": [[[ridge_x, -2000e3], [ridge_x, 2000e3]]], "reference model name": ref}
+    corners = [
+        ("slab-plate-model-series-at-trench", 273.15,
+         slab_world({"length": 400e3, "thickness": [100e3], "angle": [45]}, {"model": "plate model", "plate velocity": 0.05, "density": 3300, "specific heat": 1250, "thermal conductivity": 2.5, "potential mantle temperature": 1600,
+                                                                              "adiabatic heating": False, "max distance slab top": 100e3}),
+         [at(a, d) for d in (100, 200, 250, 300) for a in (10.0, 100.0)]),
+        ("mass-conserving-plate-reference-young-plate", 293.15,
+         slab_world({"length": 1400e3, "thickness": [300e3], "top truncation": [-100e3], "angle": [45]}, mcm("plate model", -2.5e3, 100e3)),
+         [at(a, d) for d in (6800, 7500, 8000, 8500) for a in (50.0, 1000.0)]),
+        ("mass-conserving-coupling-depth-below-660km", 293.15,
+         slab_world({"length": 1400e3, "thickness": [300e3], "top truncation": [-100e3], "angle": [45]}, mcm("half space model", -4000e3, 700e3)),
+         [at(1075e3, d) for d in (0.0, 10e3, 20e3)]),
+    ]
+    for ci, (probe, tsurf, w, pts) in enumerate(corners):
+        path = os.path.join(wdir, "corner_%d.wb" % ci)
+        vals, info = run(w, pts, path)
+        if vals is None:
+            viol.append({"what": "library failed %s" % (info,), "world_json": w}); continue
+        cases += len(pts); nontriv += len(pts)
+        for k, ((p, d), v_) in enumerate(zip(pts, vals)):
+            if not (tsurf - 2e-5 <= v_ <= 1600.0 + 2e-5):
+                viol.append({"what": "slab %s: temperature %.9g at depth %.6g outside [surface temperature %.6g, ambient 1600] (point %.6g m from the trench)" % (w["features"][0]["temperature models"][0]["model"], v_, d, tsurf, p[0]),
+                             "world_json": w, "world": path, "cmd": info[k + 1], "probe": probe})
+                break
     return {"violations": trim_violations(viol, 30), "summary": {"cases": cases, "violations": len(viol), "nontrivial": nontriv, "input_distribution": dist}, "samples": samples}
 
 
